@@ -128,7 +128,9 @@ spec('vars_out')(_out('vars'))
 def c12_set_is(ex, st, s, d):
     x = z3.Const(fresh_name('x'), Val)
     a, b = _dom_of(ex, st, s), _dom_of(ex, st, d)
-    return v_bool(z3.ForAll([x], z3.Select(a, x) == z3.Select(b, x)))
+    # beta-reduce the membership terms (set comprehensions are lambdas) and state the two inclusions separately
+    l, r = z3.simplify(z3.Select(a, x)), z3.simplify(z3.Select(b, x))
+    return v_bool(z3.And(z3.ForAll([x], z3.Implies(l, r)), z3.ForAll([x], z3.Implies(r, l))))
 
 
 @spec('c12_member')
@@ -148,10 +150,16 @@ def c12_single(ex, st, name):
 
 @spec('c12_union_children')
 def c12_union_children(ex, st, kind, children):
-    """{x | exists k < len(children): x in OUT_kind(children[k])}"""
+    """{x | exists k < len(children): x in OUT_kind(children[k])}, children = the list on entry"""
     if kind.lit not in KINDS:
         raise Unsupported('c12_union_children: unknown kind')
-    n, arr, _ = lib.seq_parts(ex, st, children)
+    if children.kind != 'list':
+        raise Unsupported('c12_union_children: not a list')
+    # the list as it was when the function was entered (modifies=[]: the frame obligations show that no
+    # pre-existing list changes, so this is also its final content)
+    r = as_ref(children)
+    st.field('$len'), st.field('$elems')
+    n, arr = z3.Select(st.heap0['$len'], r), z3.Select(st.heap0['$elems'], r)
     f = uf(KINDS[kind.lit], Val, DOM)
     x = z3.Const(fresh_name('x'), Val)
     k = z3.Int(fresh_name('k'))
@@ -206,3 +214,83 @@ def aud_nerr_upto(ex, st, children, db, k):
     st.assume(z3.Implies(kt > 0, z3.And(S(arr, dt, kt) == S(arr, dt, kt - 1) + elen(z3.Select(arr, kt - 1), dt),
                                         elen(z3.Select(arr, kt - 1), dt) >= 0)))
     return v_int(S(arr, dt, kt))
+
+
+# ---- PanelLikelihoodTrajectory counter ---------------------------------------------------------------
+@spec('plt_count')
+def plt_count(ex, st, e):
+    return v_int(uf('C12.plt_count', Val, I)(ex.box(st, e)))
+
+
+@spec('plt_count_upto')
+def plt_count_upto(ex, st, children, k):
+    """C(elems, 0) = 0, C(elems, k+1) = C(elems, k) + plt_count(elems[k]) (function of the list contents)."""
+    n, arr, _ = lib.seq_parts(ex, st, children)
+    kt = as_int(k)
+    S = uf('C12.plt_upto', SEQ, I, I)
+    cnt = uf('C12.plt_count', Val, I)
+    q = z3.Int(fresh_name('q'))
+    st.assume(S(arr, z3.IntVal(0)) == 0)
+    ax = z3.ForAll([q], z3.Implies(q >= 0, S(arr, q + 1) == S(arr, q) + cnt(z3.Select(arr, q))),
+                   patterns=[S(arr, q + 1)] if lib_pattern_ok(arr) else [])
+    if not any(ax.eq(h) for h in st.pc[-60:]):
+        st.pc.append(ax)
+    st.assume(z3.Implies(kt > 0, S(arr, kt) == S(arr, kt - 1) + cnt(z3.Select(arr, kt - 1))))
+    return v_int(S(arr, kt))
+
+
+@spec('c12_nonempty')
+def c12_nonempty(ex, st, s):
+    x = z3.Const(fresh_name('w'), Val)
+    return v_bool(z3.Exists([x], z3.Select(_dom_of(ex, st, s), x)))
+
+
+@spec('aud_in_order')
+def aud_in_order(ex, st, lst, children, db, K):
+    """The errors of the first K members of `children` sit in `lst` one after the other, in order:
+         forall k < K:  N(k+1) <= len(lst)   and   forall j < nerr(k):  lst[N(k) + j] == ERR(children[k])[j]
+    (N = aud_nerr_upto).  Same formula as the nested `forall` of the DSL, with explicit instantiation patterns."""
+    ln, la, _ = lib.seq_parts(ex, st, lst)
+    n, arr, _ = lib.seq_parts(ex, st, children)
+    dt = ex.box(st, db)
+    Kt = as_int(K)
+    S = uf('C12.nerr_upto', SEQ, Val, I, I)
+    elen = uf('C12.err_len', Val, Val, I)
+    earr = uf('C12.err_arr', Val, Val, SEQ)
+    aud_nerr_upto(ex, st, children, db, K)        # unfolding axioms
+    k, j = z3.Int(fresh_name('k')), z3.Int(fresh_name('j'))
+    ck = z3.Select(arr, k)
+    ok = lib_pattern_ok(arr) and lib_pattern_ok(la)
+    bounded = z3.ForAll([k], z3.Implies(z3.And(k >= 0, k < Kt), S(arr, dt, k + 1) <= ln),
+                        patterns=[elen(ck, dt), S(arr, dt, k + 1)] if ok else [])
+    placed = z3.ForAll([k, j], z3.Implies(z3.And(k >= 0, k < Kt, j >= 0, j < elen(ck, dt)),
+                                          z3.Select(la, S(arr, dt, k) + j) == z3.Select(earr(ck, dt), j)),
+                       patterns=[z3.Select(earr(ck, dt), j)] if ok else [])
+    return v_bool(z3.And(bounded, placed))
+
+
+@spec('sim_raises')
+def sim_raises(ex, st, e, idm):
+    return v_bool(uf('C12.sim_raises', Val, Val, B)(ex.box(st, e), ex.box(st, idm)))
+
+
+@spec('names_of_type')
+def names_of_type(ex, st, e, the_type):
+    return _setval(uf('C12.names_of_type', Val, Val, DOM)(ex.box(st, e), ex.box(st, the_type)))
+
+
+@spec('numbering_fails')
+def numbering_fails(ex, st, expressions, db):
+    """does IdManager.prepare refuse these formulas (a function of the list CONTENTS and the database)"""
+    n, arr, _ = lib.seq_parts(ex, st, expressions)
+    return v_bool(uf('C12.numbering_fails', I, SEQ, Val, B)(n, arr, ex.box(st, db)))
+
+
+@spec('prepare_refuses')
+def prepare_refuses(ex, st, e, db, n):
+    return v_bool(uf('C12.prepare_refuses', Val, Val, Val, B)(ex.box(st, e), ex.box(st, db), ex.box(st, n)))
+
+
+@spec('engine_refuses')
+def engine_refuses(ex, st, e, db):
+    return v_bool(uf('C12.engine_refuses', Val, Val, B)(ex.box(st, e), ex.box(st, db)))
